@@ -117,6 +117,50 @@ def handle : Handler := fun op args impl =>
           | none => "fail:unparsable"
         | _ => "fail:unparsable"
       some ⟨encRows r.1 ++ " " ++ strJoin r.2.1 ++ " " ++ strJoin r.2.2, v⟩
+    | "support", [what, par, reps] => do
+      -- distributional support: after K independent runs every admissible outcome must have been reached.
+      -- The case is `na` unless, on an ideal uniform source, a missing outcome has probability < 1e-30.
+      let K ← reps.toNat?
+      let cols := (List.range L).map (Spec.col rows)
+      let distinct := cols.eraseDups.length == L && (Spec.names rows).eraseDups.length == n
+      let key (l : List Nat) : String := strJoin (l.map toString)
+      let enough (perRun : Float) (outcomes : Nat) : Bool :=
+        -- P(some outcome never reached) ≤ outcomes * (1-perRun)^K
+        perRun ≥ 1 || Float.ofNat K * Float.log (1 - perRun) + Float.log (Float.ofNat outcomes) < -69.1
+      let perms : List (List Nat) → Nat → List (List Nat) := fun acc _ =>
+        acc.flatMap fun p => ((List.range n).filter fun i => !p.contains i).map fun i => p ++ [i]
+      let res : Option (String × Bool) :=
+        match what with
+        | "bootstrap" => do
+          let f ← fl par
+          let f := if f ≤ 0 || f > 1 then 1.0 else f
+          let k := fracOf f L
+          if k == 0 then some ("_", true) else
+          some (key (List.range L), enough (1 - Float.exp (Float.ofNat k * Float.log (1 - 1 / Float.ofNat L))) L || L == 1)
+        | "sample" => do
+          let nb ← par.toNat?
+          if nb < 1 || nb > n then none else
+          some (key (List.range n), enough (Float.ofNat nb / Float.ofNat n) n)
+        | "window" => do
+          let len ← par.toNat?
+          if len < 1 || len > L then none else
+          let m := L - len + 1
+          some (key (List.range m), enough (1 / Float.ofNat m) m)
+        | "columns" => do
+          let len ← par.toNat?
+          if len < 1 || len > L then none else
+          some (key (List.range L), enough (Float.ofNat len / Float.ofNat L) L)
+        | "shuffle" =>
+          if n > 4 then none else
+          let ps := (List.range n).foldl perms [[]]
+          let ks := ps.map fun p => String.join (p.map toString)
+          some (strJoin ks, enough (1 / Float.ofNat ps.length) ps.length)
+        | _ => none
+      match res with
+      | some (full, ok) =>
+        if !distinct || !ok then some ⟨full, "na"⟩
+        else some ⟨full, verdictOf (impl == full) ("support-" ++ what ++ "-outcome-never-reached")⟩
+      | none => some ⟨"err", "na"⟩
     | "twice", [] => some ⟨"same", verdictOf (impl == "same") "same-seed-different-result"⟩
     | _, _ => none
   | _, _ => none
